@@ -49,7 +49,10 @@ func (f *frame) exec(ins ssa.Instruction, st *State) {
 		key := e.structKey(S)
 		fn := "fa_" + key + "_" + fname
 		e.declFun(fn, []string{"Int"}, "Int")
-		f.set(i, T{"(" + fn + " " + base.S + ")", "Int", i.Type()})
+		fat := "(" + fn + " " + base.S + ")"
+		e.declFun("owner", []string{"Int"}, "Int")
+		e.addDecl("fafact@"+fat, "(assert (and (not (= "+fat+" 0)) (= (owner "+fat+") (owner "+base.S+"))))")
+		f.set(i, T{fat, "Int", i.Type()})
 		f.addrs[i] = fieldAddr{heap: h, sort: hs, base: base.S, guardS: key, fname: fname, ftype: ft}
 	case *ssa.Field:
 		x := f.val(i.X, st)
@@ -65,24 +68,23 @@ func (f *frame) exec(ins ssa.Instruction, st *State) {
 			pos := "(+ (soff " + s.S + ") " + idx.S + ")"
 			if h, hs := f.elemHeap(xt.Elem()); h != "" {
 				f.addrs[i] = elemAddr{h, hs, "(sarr " + s.S + ")", pos}
-				e.declFun("ea", []string{"Int", "Int"}, "Int")
-				f.set(i, T{"(ea (sarr " + s.S + ") " + pos + ")", "Int", i.Type()})
+				f.set(i, T{f.eaTerm("(sarr "+s.S+")", pos), "Int", i.Type()})
 			} else {
 				f.set(i, T{f.elemRef(xt.Elem(), "(sarr "+s.S+")", pos), "Int", i.Type()})
 			}
 		case *types.Pointer:
 			at := xt.Elem().Underlying().(*types.Array)
 			p := f.val(i.X, st)
-			f.safety(i, "nil-deref", st, "(not (= "+p.S+" 0))")
+			if _, isA := f.addrs[i.X]; !isA {
+				f.safety(i, "nil-deref", st, "(not (= "+p.S+" 0))")
+			}
 			f.safety(i, "index", st, and("(<= 0 "+idx.S+")", "(< "+idx.S+" "+num(at.Len())+")"))
 			if pa, ok := f.addrs[i.X]; ok {
 				f.addrs[i] = subElemAddr{pa, idx.S, e.sortOf(at.Elem())}
-				e.declFun("ea", []string{"Int", "Int"}, "Int")
-				f.set(i, T{"(ea " + p.S + " " + idx.S + ")", "Int", i.Type()})
+				f.set(i, T{f.eaTerm(p.S, idx.S), "Int", i.Type()})
 			} else if h, hs := f.elemHeap(at.Elem()); h != "" {
 				f.addrs[i] = elemAddr{h, hs, p.S, idx.S}
-				e.declFun("ea", []string{"Int", "Int"}, "Int")
-				f.set(i, T{"(ea " + p.S + " " + idx.S + ")", "Int", i.Type()})
+				f.set(i, T{f.eaTerm(p.S, idx.S), "Int", i.Type()})
 			} else {
 				f.set(i, T{f.elemRef(at.Elem(), p.S, idx.S), "Int", i.Type()})
 			}
@@ -147,6 +149,17 @@ func (f *frame) exec(ins ssa.Instruction, st *State) {
 		a := f.addrOf(i.Addr, st)
 		f.guardCheck(a, i.Addr, st, "guarded-write")
 		f.storeAt(a, v.S, st)
+		if fa, ok := a.(fieldAddr); ok {
+			if inv := e.db.typeinv[fa.guardS]; inv != nil {
+				if fad, ok := i.Addr.(*ssa.FieldAddr); ok {
+					env := &specEnv{f: f, vars: map[string]T{"self": {fa.base, "Int", fad.X.Type()}}, cur: st, old: st, pkg: e.db.typeinvP[fa.guardS], nbound: 1}
+					if it, err := env.evalBool(inv); err == nil {
+						an, pos := f.anchor(i)
+						e.addOb("typeinv-store", inv.Text+"|"+an, inv.Tags, pos, st.cond, it)
+					}
+				}
+			}
+		}
 	case *ssa.MakeInterface:
 		x := f.val(i.X, st)
 		id := e.typeID(i.X.Type())
@@ -190,6 +203,14 @@ func (f *frame) exec(ins ssa.Instruction, st *State) {
 		a := f.alloc(st)
 		ln, cp := f.val(i.Len, st), f.val(i.Cap, st)
 		f.safety(i, "makeslice-range", st, and("(<= 0 "+ln.S+")", "(<= "+ln.S+" "+cp.S+")"))
+		if rc := f.root.ct; rc != nil && rc.AllocBound != nil {
+			env := f.root.specEnv(f.root.entrySt)
+			env.pkg = rc.Pkg
+			if b, err := env.eval(rc.AllocBound.Expr); err == nil {
+				an, pos := f.anchor(i)
+				e.addOb("alloc-bound", rc.AllocBound.Text+"|"+an, rc.AllocBound.Tags, pos, st.cond, "(<= "+cp.S+" "+b.S+")")
+			}
+		}
 		stp := i.Type().Underlying().(*types.Slice)
 		if h, hs := f.elemHeap(stp.Elem()); h != "" {
 			inner := "(Array Int " + e.sortOf(stp.Elem()) + ")"
@@ -291,7 +312,7 @@ func (f *frame) box(x T) string {
 	e.declFun("box_"+k, []string{x.Sort}, "Int")
 	e.declFun("unbox_"+k, []string{"Int"}, x.Sort)
 	b := "(box_" + k + " " + x.S + ")"
-	e.assume("(= (unbox_" + k + " " + b + ") " + x.S + ")")
+	e.assume("(and (= (unbox_" + k + " " + b + ") " + x.S + ") (not (= " + b + " 0)))")
 	return b
 }
 
@@ -324,7 +345,16 @@ func (f *frame) unop(i *ssa.UnOp, st *State) {
 		// name it and attach facts
 		n := e.fresh("ld", v.Sort)
 		e.assume(eq(n, v.S))
-		e.assume(implies(st.cond, f.facts(n, v.Go, st)))
+		hn, hidx := "", ""
+		switch a := f.addrs[i.X].(type) {
+		case fieldAddr:
+			hn, hidx = a.heap, a.base
+		case elemAddr:
+			hn, hidx = a.heap, a.arr
+		case primAddr:
+			hn, hidx = a.heap, a.ref
+		}
+		e.assume(implies(st.cond, f.factsFrom(n, v.Go, st, hn, hidx)))
 		out := T{n, v.Sort, i.Type()}
 		if fa, ok := f.addrs[i.X].(fieldAddr); ok && strings.HasPrefix(fa.guardS, "S_"+e.privPkg+"_") && e.privPkg != "" {
 			f.protect(out)
@@ -772,4 +802,16 @@ func (f *frame) selectInstr(i *ssa.Select, st *State) {
 		}
 	}
 	f.tuples[i] = res
+}
+
+// eaTerm is the first-class value of an element address; it is never nil and belongs to its array.
+func (f *frame) eaTerm(arr, idx string) string {
+	e := f.e
+	e.declFun("ea", []string{"Int", "Int"}, "Int")
+	e.declFun("owner", []string{"Int"}, "Int")
+	t := "(ea " + arr + " " + idx + ")"
+	if !strings.Contains(t, "!q") {
+		e.addDecl("eafact@"+t, "(assert (and (not (= "+t+" 0)) (= (owner "+t+") (owner "+arr+"))))")
+	}
+	return t
 }
